@@ -346,8 +346,9 @@ def same_outputs(case, io, mo):
 class Check(Property):
     ID = "C11"
     PROPS_FILE = "PintModel/Props/C11.lean"
-    EXTRA_LEAN_FILES = ["PintModel/Proofs/BfsLemmas.lean"]
-    MODULE = "PintModel.Props.C11"
+    EXTRA_LEAN_FILES = ["PintModel/Proofs/BfsLemmas.lean", "PintModel/Proofs/ParamLemmas.lean"]
+    EXTRA_PROPS_FILES = ["PintModel/Props/C11Params.lean"]
+    MODULE = "PintModel.Props.C11Params"
     RULE = ("scenarios: 1-3 generated contexts (monomial rules between 3-5 base dimensions, overlapping rules, "
             "parameters with defaults, aliases, unit redefinitions) with a random sequence of enable/disable, "
             "per-call `to(dst, ctx)` and conversion probes between units of the dimensions involved; plus the "
@@ -411,7 +412,84 @@ class Check(Property):
         return None
 
     # ------------------------------------------------------------------ oracle
+    def entry_forms_probe(self):
+        """one context with a parameter, entered in every way the property names (globally, with-block, per to() call, decorator),
+        with the parameter given by keyword, inherited from an enclosing context, or left to the declared default: every form
+        applies the same rule value"""
+        import pint
+        v = []
+        try:
+            u = pint.UnitRegistry(None, non_int_type=Fraction)
+            for line in ("a11 = [A11]", "b11 = [B11]", "c11 = [C11]"):
+                u.define(line)
+            ctx = pint.Context("ctx11", defaults={"n": 5})
+            ctx.add_transformation("[A11]", "[B11]", lambda ureg, x, n: x * n * ureg.Quantity(3, "b11 / a11"))
+            ctx.add_transformation("[B11]", "[C11]", lambda ureg, x, n: x * n * ureg.Quantity(1, "c11 / b11"))
+            u.add_context(ctx)
+            outer = pint.Context("outer11", defaults={"n": 2})
+            outer.add_transformation("[C11]", "[A11]", lambda ureg, x, n: x * ureg.Quantity(1, "a11 / c11"))
+            u.add_context(outer)
+            q = u.Quantity(2, "a11")
+
+            def forms(kw):
+                out = {}
+                out["to(dst, ctx, **kw)"] = lambda dst: q.to(dst, "ctx11", **kw).magnitude
+
+                def with_block(dst):
+                    with u.context("ctx11", **kw):
+                        return q.to(dst).magnitude
+                out["with ureg.context(ctx, **kw)"] = with_block
+
+                def enabled(dst):
+                    u.enable_contexts("ctx11", **kw)
+                    try:
+                        return q.to(dst).magnitude
+                    finally:
+                        u.disable_contexts(1)
+                out["enable_contexts(ctx, **kw)"] = enabled
+
+                def decorated(dst):
+                    @u.with_context("ctx11", **kw)
+                    def f(x, dst_=None):
+                        return x.to(dst_).magnitude
+                    return f(q, dst_=dst)
+                out["@ureg.with_context(ctx, **kw)"] = decorated
+
+                def decorated_pos(dst):
+                    @u.with_context("ctx11", **kw)
+                    def f(x, d2):
+                        return x.to(d2).magnitude
+                    return f(q, dst)
+                out["@ureg.with_context(ctx, **kw), positional call"] = decorated_pos
+                return out
+            for kw, n_alone, n_inside in (({}, 5, 2), ({"n": 7}, 7, 7)):
+                for dst, power in (("b11", 1), ("c11", 2)):
+                    for label, fn in forms(kw).items():
+                        for enclosing, n in ((False, n_alone), (True, n_inside)):
+                            want = Fraction(2) * 3 * Fraction(n) ** power
+                            try:
+                                if enclosing:
+                                    with u.context("outer11"):
+                                        got = fn(dst)
+                                else:
+                                    got = fn(dst)
+                            except Exception as exc:  # noqa: BLE001
+                                got = type(exc).__name__
+                            if got != want:
+                                v.append(f"C11 {label} with kw={kw}{' inside outer11(n=2)' if enclosing else ''}: 2 a11 -> {dst} = {got}, the rules with "
+                                         f"n={n} give {want}")
+            if u._active_ctx.contexts:
+                v.append("C11 entry-forms probe: contexts left active")
+        except Exception as exc:  # noqa: BLE001
+            v.append(f"C11 entry-forms probe raised {type(exc).__name__}: {exc}")
+        return v[:8]
+
     def oracle(self, c):
+        if not getattr(self, "_entry_done", False):
+            self._entry_done = True
+            ev = self.entry_forms_probe()
+            if ev:
+                return ev
         if c.get("kind") == "raw":
             return oracle_raw(c)
         if "bundled" in c:
